@@ -102,6 +102,16 @@ def cases(ctx):
             yield {"kind": "doc", "sseed": rng.getrandbits(32), "v1": rng.getrandbits(32), "v2": rng.getrandbits(32),
                    "salt": rng.choice(["saltForTest", "x", "Q", "zz9", "netconan"]),
                    "spec": [{"form": fid, "cls": [cls] * S.nslots(S.BY_ID[fid]), "ids": list(range(S.nslots(S.BY_ID[fid])))}]}
+    # a secret that straddles a multiple of 8192 characters on a very long line
+    simple = [f for f in S.CATALOGUE if S.nslots(f) == 1 and f["mode"] == "replace" and not f["id"].startswith(("aws", "catchall"))]
+    for _ in range(ctx.per_shard(ctx.pick(24, 1200))):
+        f = rng.choice(simple)
+        cls = rng.choice([c for c in f["classes"]])
+        if S.c07_leaky(f, cls, ""):
+            continue
+        yield {"kind": "doc", "sseed": rng.getrandbits(32), "v1": rng.getrandbits(32), "v2": rng.getrandbits(32), "salt": "saltForTest",
+               "spec": [{"form": f["id"], "cls": [cls], "ids": [0]}], "straddle": rng.choice([8192, 8192, 16384, 4096, 65536]),
+               "straddle_at": rng.random()}
     # multi-line documents with repetition patterns
     for _ in range(ctx.per_shard(ctx.pick(800, 20000))):
         nlines = rng.randint(2, 40)
@@ -137,6 +147,7 @@ def make_texts(case):
             "eol": "\n",
         })
     md5len = {}
+    ctx_pad = [0]
     texts, vals = [], []
     for vseed in (case["v1"], case["v2"]):
         vr = random.Random(vseed)
@@ -164,7 +175,18 @@ def make_texts(case):
                     txt = sec["text"]
                 slot_texts.append(txt)
             line, parts, _ = S.render(random.Random(st["fillseed"]), form, slot_texts, indent=st["indent"],
-                                      quote=tuple(st["quote"]), trail=st["trail"])
+                                      quote=tuple(st["quote"]), trail=st["trail"] if not case.get("straddle") else "")
+            if case.get("straddle"):
+                # same padding for both valuations (computed from the first one): the secret of V1 straddles
+                # the boundary at a chosen fraction of its length
+                if "pad" not in st:
+                    p = line.find(slot_texts[0])
+                    r = int(len(slot_texts[0]) * case.get("straddle_at", 0.5))
+                    n = max(0, case["straddle"] - r - p)
+                    st["pad"] = ("zq " * (n // 3 + 2))[: max(0, n - 1)] + (" " if n else "")
+                ind = len(line) - len(line.lstrip())
+                line = line[:ind] + st["pad"] + line[ind:]
+                ctx_pad[0] = len(st["pad"])
             lines_out.append(line + st["eol"])
         texts.append("".join(lines_out))
         vals.append(secrets)
